@@ -219,7 +219,17 @@ def run(rep):
             rep.case(json.dumps(v["cfg"]))
             replay = {"kind": "config", "cfg": v["cfg"], "concrete": repr(list(d.items()))}
             judge(rep, v["out"], d, run_convert(dict(d)), replay)
-            if v["out"] == "Accept" and i % 7 == 0:
+            if v["out"] != "Accept" and not has_unknown and all(k in d for k in KEYS) and d.get("TRANSPORT_TYPE"):
+                # the same complete configuration through the application object (its Config layer runs first): still rejected
+                # (a falsy TRANSPORT_TYPE is the one value that layer replaces by its default, as implemented)
+                try:
+                    with guard(20, "Diameter"):
+                        app = Diameter(config=dict(d))
+                    rep.violation(f"configuration that must be rejected ({v['out']}) was accepted by Diameter(config=...): connection "
+                                  f"watchdog_timeout={getattr(app._connection, 'watchdog_timeout', '?')!r}", replay)
+                except BaseException:
+                    pass
+            if v["out"] == "Accept":
                 try:
                     with guard(20, "Diameter"):
                         app = Diameter(config=dict(d))
